@@ -84,6 +84,9 @@ def jobs(tier, seed):
         for zk in ('z0', 'zhalf'):
             for method in ('above', 'below'):
                 out.append(('residue-p%d-%s-%s' % (p, zk, method), dict(kind='residue', method=method, path='radial', order=p + 2, zk=zk, p=p, ratio=4.0, cplx=False)))
+        # an explicit approximation order above the pole order (the default is pole_order + 2)
+        for order in (p + 1, p + 3, p + 4):
+            out.append(('residue-p%d-order%d' % (p, order), dict(kind='residue', method='above', path='radial', order=order, zk='zhalf', p=p, ratio=4.0, cplx=False)))
     return out
 
 
@@ -97,7 +100,7 @@ def run_job(job, kind, method, path, order, zk, p, ratio, cplx):
         return rows(job, lim, method, path, order, zk, ratio, cplx)
     if kind == 'e2e':
         return e2e(job, lim, order, zk)
-    return residue(job, lim, p, zk, method)
+    return residue(job, lim, p, zk, method, order)
 
 
 # --------------------------------------------------------------------------
@@ -326,15 +329,16 @@ def e2e(job, lim, order, zk):
         job.prove('error_estimate >= 0', sn.lift(e) >= 0, p.conds(), dict(key='C18:e2e:negative-error', kind='e2e'))
 
 
-def residue(job, lim, pole, zk, method):
+def residue(job, lim, pole, zk, method, order=None):
     z0 = _z0(zk)
-    order = pole + 2
+    explicit = order is not None and order != pole + 2
+    order = pole + 2 if order is None else order
     f, names, coefs = poly_model(order, False, z0, p=pole)
     box = [z3.And(z3.Real(nm) >= -1, z3.Real(nm) <= 1) for nm in names]
 
     def harness():
         with tr.traced(), cm.quiet():
-            R = lim.Residue(f, method=method, pole_order=pole)
+            R = lim.Residue(f, method=method, pole_order=pole, **(dict(order=order) if explicit else {}))
             z = np.atleast_1d(np.asarray(z0))
             sign = 1 if method == 'above' else -1
             steps = [sign * s for s in R.step(z)]
@@ -349,7 +353,8 @@ def residue(job, lim, pole, zk, method):
         job.violation('raises', dict(key='C18:residue:raises:%s' % type(p.exc).__name__, kind='residue', exc=repr(p.exc)[:300]))
         return
     new, hh, w1, used_order = p.result
-    job.confirm('default order = pole_order + 2', used_order == pole + 2)
+    if not job.confirm('order used = %s' % ('the given order' if explicit else 'pole_order + 2'), used_order == order):
+        job.violation('order', dict(key='C18:residue:p%d:order-not-honoured' % pole, kind='residue', got=int(used_order), want=order))
     new = np.asarray(new)
     tight = 0
     for i in range(new.shape[0]):
@@ -430,7 +435,7 @@ def replay(cex):
         try:
             with cm.quiet():
                 if kind == 'residue':
-                    got = lim.Residue(f, method=method, pole_order=pole)(z0)
+                    got = lim.Residue(f, method=method, pole_order=pole, **(dict(order=order) if order != pole + 2 else {}))(z0)
                 else:
                     got = lim.Limit(f, method=method, order=order, path=path, step_ratio=ratio)(z0)
         except Exception as e:  # noqa
